@@ -4,7 +4,7 @@
    for all calls: the 23 calls that do not go through the directory walker (C01_conformance_partial),
    makedirs, copydir and movedir (fast path and merge) in every non-degenerate case (destination not
    an ancestor of the source, where the contract leaves the result open), on states whose names are
-   NUL-free (an invariant, C01_nn_*). The other backends and compositions are tied to the reference by
+   NUL-free (an invariant: the C01_nn theorems). The other backends and compositions are tied to the reference by
    the correspondence run only. *)
 From Coq Require Import List NArith Bool.
 From PyFS Require Import Base.PyStr Base.Outcome FS.Tree FS.Ops FS.Ref FS.Agree FS.Mem FS.Wf
